@@ -191,21 +191,29 @@ func classOf(s string) string {
 // (so that one root cause has one signature whatever else the string contains); otherwise
 // the generic class.
 func cause(enc, s, class string) string {
+	isBreak := func(r rune) bool { return r == '\n' || r == 0x85 || r == 0x2028 || r == 0x2029 }
 	if strings.HasPrefix(enc, "json") {
 		switch {
 		case strings.ContainsRune(s, 0x7f):
 			return "contains-U+007F"
-		case strings.ContainsRune(s, 0x85):
-			return "contains-U+0085"
-		case strings.ContainsFunc(s, func(r rune) bool { return r >= 0x80 && r <= 0x9f }):
+		case strings.ContainsFunc(s, func(r rune) bool { return r >= 0x80 && r <= 0x9f && r != 0x85 }):
 			return "contains-C1-control"
 		case strings.ContainsFunc(s, func(r rune) bool { return r == 0xfffe || r == 0xffff }):
 			return "contains-noncharacter"
+		case strings.ContainsRune(s, 0x85):
+			return "contains-U+0085"
 		}
 	} else if strings.HasPrefix(s, "\n") {
 		return "leading-newline"
-	} else if strings.Contains(s, "\n") && (strings.HasPrefix(s, " ") || strings.HasPrefix(s, "\t")) {
-		return "multiline-with-leading-blank"
+	} else if strings.ContainsFunc(s, isBreak) {
+		// yaml.v3 miscomputes the block scalar header of a multi-line string whose first
+		// character is a blank, a tab or a line break (U+0085, U+2028, U+2029 count as breaks)
+		for _, r := range s {
+			if r == ' ' || r == '\t' || isBreak(r) {
+				return "multiline-with-leading-blank"
+			}
+			break
+		}
 	}
 	return class
 }
